@@ -35,7 +35,7 @@ H = {
                                  [("core", dict(n=3, m=2, s=1, p=1, w="diag", hist=2))]),
     "k_update_fills_cache": ("thorough", 900, 2400, "successful update from an empty cache (concrete SVD contract): coefficients/residuals of the new state", None),
     "k_into_sequential_preserves_state": ("quick", 300, 900, "into_sequential moves Y_w, model, epsilon (bit pattern), weights, cache unchanged", None),
-    "k_nonfinite_never_reaches_svd": ("quick", 420, 2400, "for ALL f64 bit patterns of a 2x2 basis matrix and of the weights: the matrix handed to the SVD is finite (SVD precondition), at build",
+    "k_nonfinite_never_reaches_svd": ("quick", 600, 2400, "for ALL f64 bit patterns of a 2x2 basis matrix and of the weights: the matrix handed to the SVD is finite (SVD precondition), at build",
                                       [("nonfinite", dict(n=3, p=1, val=v, where="phi", i=1, j=0)) for v in ("nan", "inf")] + [("nonfinite", dict(n=5, p=2, val="nan", where="phi", i=0, j=1))]),
     "k_no_panic_downstream_of_svd": ("thorough", 0, 3600, "with arbitrary SVD factors and all f64 inputs (2x2x1) nothing downstream of the SVD panics", None),
 }
